@@ -337,7 +337,8 @@ DATES = ["2020", "1999", "0001", "9999", "0000", "2020-02-29", "2019-02-29", "19
          "01-01-2020", "2020-01-01T00:00:00", "2020-01-01Z", " 2020", "2020 ", "２０２０", "٢٠٢٠", "MMXX", "2020-Jan-01", "2020-W01",
          "2020-001", "0000-01-01", "0001-01-01", "9999-12-31", "2020-02-29 ", "20-02-29"]
 
-URIS = ["https://example.org/a/b", "http://example.org", "http://example.org/", "ftp://ftp.example.org/pub/x.txt",
+URIS = ["http://exämple..org/", "http://.exämple.org/", "http://ex\xadample.org/x", "http://" + "ä" * 70 + ".org/", "http://ex\x80ample.org/",
+        "https://example.org/a/b", "http://example.org", "http://example.org/", "ftp://ftp.example.org/pub/x.txt",
         "https://example.org:8080/p?q=1#f", "http://a", "http://a.b-c.d/e_f~g", "https://example.org/a%20b", "http://127.0.0.1/x",
         "http://example.org:80", "https://example.org?x=1", "https://example.org#top", "https://example.org/p;v=1,2",
         "mailto:x@example.org", "file:///etc/passwd", "gopher://example.org/", "urn:isbn:0451450523", "htp://example.org/",
